@@ -19,6 +19,7 @@ type Rng struct {
 	// wide: this document's two-level arrays (nested, grid) are large at the first, the
 	// second or both levels
 	wide1, wide2 bool
+	square       int    // > 0: both levels of nested are square+0..7 long
 	bigField     string // the array that is certainly large in this document ("" = none)
 }
 
@@ -124,7 +125,7 @@ func DocFor(r *Rng, hint string) string {
 	if r.Chance(1, 8) {
 		return CanonicalDoc
 	}
-	r.big, r.wide1, r.wide2, r.bigField = 0, false, false, ""
+	r.big, r.wide1, r.wide2, r.bigField, r.square = 0, false, false, "", 0
 	forceWide := false
 	if hint != "" && r.Chance(1, 5) {
 		var cands []string
@@ -142,6 +143,19 @@ func DocFor(r *Rng, hint string) string {
 			}
 		}
 	}
+	// an expression that projects through both levels of a two-level array gets both
+	// levels long one time in three (nested parallelism / chunking needs both)
+	forceBoth := false
+	for _, pat := range []string{"nested[*][", "nested[][", "grid[*][", "grid[]["} {
+		if hint != "" && strings.Contains(hint, pat) {
+			forceBoth = true
+		}
+	}
+	if forceBoth && r.Chance(1, 3) {
+		forceWide = true
+	} else {
+		forceBoth = false
+	}
 	if r.Chance(1, 20) {
 		r.big = 1 // one document in twenty has one array of 64-400 elements
 	} else if r.Chance(1, 40) {
@@ -149,13 +163,21 @@ func DocFor(r *Rng, hint string) string {
 	}
 	if forceWide || r.Chance(1, 50) {
 		// two-level arrays: many short lists, few long lists, or (rarely) both levels long
-		switch r.Intn(5) {
+		sel := r.Intn(6)
+		if forceBoth {
+			sel = 5
+		}
+		switch sel {
 		case 0, 1:
 			r.wide1 = true
 		case 2, 3:
 			r.wide2 = true
 		default:
 			r.wide1, r.wide2 = true, true
+			if r.Chance(1, 2) {
+				// both levels just past one likely threshold (nested parallelism, chunking)
+				r.square = []int{32, 64, 128}[r.Intn(3)]
+			}
 		}
 	}
 	d := map[string]interface{}{}
@@ -246,6 +268,9 @@ func DocFor(r *Rng, hint string) string {
 	} else if r.wide2 && n == 0 {
 		n = 2
 	}
+	if r.square > 0 {
+		n = r.square + r.Intn(8)
+	}
 	nested := make([]interface{}, n)
 	for i := range nested {
 		if r.wide1 || r.wide2 {
@@ -255,6 +280,9 @@ func DocFor(r *Rng, hint string) string {
 				if r.wide1 && n*m > 20000 {
 					m = 20000 / n // both levels long: keep one evaluation inside the step budget
 				}
+			}
+			if r.square > 0 {
+				m = r.square + r.Intn(8)
 			}
 			t := make([]interface{}, m)
 			for j := range t {
